@@ -46,7 +46,7 @@ class GlobSplitInit(Contract):
             ('_GlobSplit.__init__.follow/matchbase/extmatchbase/no_abs_are_their_bits', ('C06', 'C16', 'C05'),
              lambda c: z3.And(fld(c, 'follow') == has(F(), 'FOLLOW'), fld(c, 'matchbase') == has(F(), 'MATCHBASE'), fld(c, 'extmatchbase') == has(F(), '_EXTMATCHBASE'),
                               fld(c, 'no_abs') == has(F(), '_NOABSOLUTE'))),
-            ('_GlobSplit.__init__.parts_are_compiled_without_NEGATE_and_without_the_implicit-prefix_flags', ('C05', 'C03'),
+            ('_GlobSplit.__init__.parts_are_compiled_without_NEGATE_and_without_the_implicit-prefix_flags', ('C05', 'C03', 'C16'),
              lambda c: c.st.fields['flags'].t == F() & ~bv(WC['NEGATE'] | WC['MATCHBASE'] | WC['_EXTMATCHBASE'])),
             ('_GlobSplit.__init__.separator_and_drive_detection_follow_the_platform_rule', ('C17', 'C05'),
              lambda c: z3.And(fld(c, 'unix') == FL.S_is_unix_style(F()), fld(c, 'win_drive_detect') == z3.Not(FL.S_is_unix_style(F())),
